@@ -406,6 +406,21 @@ def find_witness(prop, v, repo, log):
         r = slice_grid_search(log)
         r['search'] = 'all len<=6 x start/stop in [-8,8]+extremes x step on the real library vs Python slicing'
         return r
+    if prop == 'C07' and 'top_frame' in oid:
+        build(log)
+        p = subprocess.run([BIN, 'topframe'], capture_output=True, text=True)
+        o = p.stdout.strip()
+        ok = o.startswith('OK ("top_frame_name"')
+        return {'witness': None if ok else {'probe': 'Evaluator::call_stack_top_frame() from a native function called as f() -> g() -> top_frame_name()',
+                                             'real_library': o, 'expected': 'the frame of top_frame_name (the innermost call)'}}
+    if prop == 'C07' and ('str.at' in oid or 'StarlarkStr' in fn):
+        idx = [-2147483648, -2147483647, -4, -3, -1, 0, 2, 3, 2147483647]
+        exprs = ['"abc"[%d]' % i for i in idx] + ['"h\\u00e9llo"[%d]' % i for i in idx]
+        outs = eval_many(exprs, log)
+        for e, o in zip(exprs, outs):
+            if o == 'PANIC':
+                return {'witness': {'expression': e, 'real_library': o, 'expected': 'a value or an index error'}}
+        return {'witness': None, 'grid_points': len(exprs)}
     if prop == 'C07' and 'to_diagnostic_frames' in oid or 'to_function_values' in oid:
         build(log)
         p = subprocess.run([BIN, 'callstack-empty'], capture_output=True, text=True)
